@@ -138,6 +138,26 @@ func judgeGenerate(rec *ev.Rec, stream []byte, reader string, k int) bool {
 	return false
 }
 
+// spareReaches writes into the spare capacity of a and reports whether that
+// changed b.
+func spareReaches(a, b []byte) string {
+	if cap(a) == len(a) {
+		return ""
+	}
+	snap := append([]byte(nil), b...)
+	ext := a[:cap(a)]
+	saved := append([]byte(nil), ext[len(a):]...)
+	for i := len(a); i < len(ext); i++ {
+		ext[i] ^= 0x5a
+	}
+	changed := !bytes.Equal(snap, b)
+	copy(ext[len(a):], saved)
+	if changed {
+		return "overwrites"
+	}
+	return ""
+}
+
 type fakePriv []byte
 type fakePub []byte
 
@@ -251,6 +271,28 @@ func judgeKeyObject(rec *ev.Rec, seed []byte, eseed int64) bool {
 		gp[0] ^= 1
 		if gk[32] != k[32] {
 			bad = "public key returned by GenerateKey aliases the private key"
+			return
+		}
+		gp[0] ^= 1
+		// spare capacity of a returned slice must not reach another returned value
+		// (a caller may legally append to what it was given)
+		if w := spareReaches([]byte(gp), []byte(gk)); w != "" {
+			bad = "GenerateKey: appending to the public key " + w + " the private key"
+			return
+		}
+		if w := spareReaches([]byte(gk), []byte(gp)); w != "" {
+			bad = "GenerateKey: appending to the private key " + w + " the public key"
+			return
+		}
+		k3 := ed25519.NewKeyFromSeed(seed)
+		p3 := k3.Public().(ed25519.PublicKey)
+		s3 := k3.Seed()
+		if w := spareReaches([]byte(p3), []byte(k3)); w != "" {
+			bad = "Public(): appending to the result " + w + " the private key"
+			return
+		}
+		if w := spareReaches(s3, []byte(k3)); w != "" {
+			bad = "Seed(): appending to the result " + w + " the private key"
 			return
 		}
 	})
